@@ -353,38 +353,6 @@ theorem tok_head (t : NumTok) (hwf : t.WF) (k : List Nat) :
         simp only [Groups.render, List.nil_append, fracR, hf, List.cons_append, List.append_assoc]
         rw [← hh]
 
-theorem startsCi_head (rest : List Nat) (hn : NoCont rest) (kw : List Nat) (hkw : kw.length = 4)
-    (h0 : kw.head? = some 46) (h1 : ∀ d, isDigit d = true → (kw.drop 1).head? ≠ some d)
-    (hh : ∃ c r, rest = c :: r ∧ (isDigit c = true ∨ (c = 46 ∧ ∃ d r', r = d :: r' ∧ isDigit d = true))) :
-    startsCi rest kw = .ok false := by
-  unfold startsCi
-  split
-  · rfl
-  · rename_i hlen
-    rw [boundaryAhead_of_noCont hn 0 (by omega), boundaryAhead_of_noCont hn kw.length (by omega)]
-    simp only [Bool.and_self, Bool.not_true, Bool.false_eq_true, ↓reduceIte]
-    congr 1
-    rw [beq_eq_false_iff_ne]
-    obtain ⟨c, r, hb, hc⟩ := hh
-    rw [hb, hkw]
-    match kw, hkw, h0, h1 with
-    | [k0, k1, k2, k3], _, h0, h1 =>
-      simp only [List.head?_cons, Option.some.injEq] at h0
-      subst h0
-      rcases hc with hd | ⟨h46, d, r', hr, hd⟩
-      · intro heq
-        simp only [List.take_succ_cons, List.map_cons, List.cons.injEq] at heq
-        have := heq.1
-        rw [lowerByte_digit c hd] at this
-        subst this
-        simp [isDigit] at hd
-      · subst h46 hr
-        intro heq
-        simp only [List.take_succ_cons, List.map_cons, List.cons.injEq] at heq
-        have := heq.2.1
-        rw [lowerByte_digit d hd] at this
-        exact h1 d hd (by simp [this])
-
 theorem trySexagesimal_tok (tag : Nat) (t : NumTok) (hwf : t.WF) (k : List Nat) (hk : StopsToken k)
     (pre : List Nat) (d : Nat) (tm : Bool) :
     trySexagesimal tag ⟨pre, t.render ++ k, d, tm⟩ = .ok none := by
@@ -411,24 +379,18 @@ theorem trySexagesimal_tok (tag : Nat) (t : NumTok) (hwf : t.WF) (k : List Nat) 
 /-- (T) a decimal number token with separators, followed by `k`: the scanner consumes exactly the token
 and yields the correctly rounded value of the number written without separators. -/
 theorem parseNumberOrSpecial_tok (tag : Nat) (t : NumTok) (hwf : t.WF) (hcap : t.plain.digitCount ≤ MAX_NUM_DIGITS)
-    (k : List Nat) (hk : StopsToken k) (hnc : NoCont k) (pre : List Nat) (d : Nat) (tm : Bool) :
+    (k : List Nat) (hk : StopsToken k) (pre : List Nat) (d : Nat) (tm : Bool) :
     ∃ pre', parseNumberOrSpecial tag ⟨pre, t.render ++ k, d, tm⟩ =
       .ok ((t.plain.value binary64, false, true), ⟨pre', k, d, tm⟩) := by
   unfold PlainLit.digitCount at hcap
   have hpip : t.plain.ip = t.ip.digits := rfl
   rw [hpip] at hcap
-  have hn : NoCont (t.render ++ k) := by
-    intro c hc
-    rcases List.mem_append.mp hc with h | h
-    · exact NoCont.of_ascii (tok_render_ascii t hwf) c h
-    · exact hnc c h
   have hh := tok_head t hwf k
   unfold parseNumberOrSpecial
   simp only []
-  rw [startsCi_head _ hn [46, 105, 110, 102] rfl rfl (by intro d hd h; cases h; simp [isDigit] at hd) hh]
-  simp only [HRes.lift, Res.bind, Bool.false_eq_true, ↓reduceIte]
-  rw [startsCi_head _ hn [46, 110, 97, 110] rfl rfl (by intro d hd h; cases h; simp [isDigit] at hd) hh]
-  simp only [HRes.lift, Res.bind, Bool.false_eq_true, ↓reduceIte]
+  rw [startsCi_head _ [46, 105, 110, 102] rfl rfl (by intro d hd h; cases h; simp [isDigit] at hd) hh]
+  rw [startsCi_head _ [46, 110, 97, 110] rfl rfl (by intro d hd h; cases h; simp [isDigit] at hd) hh]
+  simp only [Bool.false_eq_true, ↓reduceIte]
   rw [trySexagesimal_tok tag t hwf k hk]
   simp only [Res.bind]
   have hb : t.render ++ k = t.ip.render ++ (fracR t ++ (expR t ++ k)) := by rw [render_eq]; simp
@@ -465,44 +427,38 @@ theorem advN_four (a b c d : Nat) (pre k : List Nat) :
   simp [advN]
 
 theorem dotInf_tok (tag : Nat) (a b c d : Nat) (hl : [a, b, c, d].map lowerByte = [46, 105, 110, 102])
-    (k : List Nat) (hn : NoCont (a :: b :: c :: d :: k)) (pre : List Nat) (dp : Nat) (tm : Bool) :
+    (k : List Nat) (pre : List Nat) (dp : Nat) (tm : Bool) :
     parseNumberOrSpecial tag ⟨pre, a :: b :: c :: d :: k, dp, tm⟩ =
       .ok ((.inf false, false, true), ⟨d :: c :: b :: a :: pre, k, dp, tm⟩) := by
   unfold parseNumberOrSpecial
   simp only []
-  have h1 : startsCi (a :: b :: c :: d :: k) [46, 105, 110, 102] = .ok true := by
+  have h1 : startsCi (a :: b :: c :: d :: k) [46, 105, 110, 102] = true := by
     unfold startsCi
     have hlen : ¬ (a :: b :: c :: d :: k).length < [46, 105, 110, 102].length := by simp
-    rw [if_neg hlen, boundaryAhead_of_noCont hn 0 (by simp), boundaryAhead_of_noCont hn _ (by simp)]
-    simp only [Bool.and_self, Bool.not_true, Bool.false_eq_true, ↓reduceIte]
-    congr 1
+    rw [if_neg hlen]
     simpa using hl
   rw [h1]
   simp only [HRes.lift, Res.bind, ↓reduceIte, advN_four]
 
 theorem dotNan_tok (tag : Nat) (a b c d : Nat) (hl : [a, b, c, d].map lowerByte = [46, 110, 97, 110])
-    (k : List Nat) (hn : NoCont (a :: b :: c :: d :: k)) (pre : List Nat) (dp : Nat) (tm : Bool) :
+    (k : List Nat) (pre : List Nat) (dp : Nat) (tm : Bool) :
     parseNumberOrSpecial tag ⟨pre, a :: b :: c :: d :: k, dp, tm⟩ =
       .ok ((.nan, false, true), ⟨d :: c :: b :: a :: pre, k, dp, tm⟩) := by
   unfold parseNumberOrSpecial
   simp only []
-  have h0 : startsCi (a :: b :: c :: d :: k) [46, 105, 110, 102] = .ok false := by
+  have h0 : startsCi (a :: b :: c :: d :: k) [46, 105, 110, 102] = false := by
     unfold startsCi
     have hlen : ¬ (a :: b :: c :: d :: k).length < [46, 105, 110, 102].length := by simp
-    rw [if_neg hlen, boundaryAhead_of_noCont hn 0 (by simp), boundaryAhead_of_noCont hn _ (by simp)]
-    simp only [Bool.and_self, Bool.not_true, Bool.false_eq_true, ↓reduceIte]
-    congr 1
+    rw [if_neg hlen]
     simp only [List.map_cons, List.map_nil, List.cons.injEq, and_true] at hl
     simp [hl.1, hl.2.1]
-  have h1 : startsCi (a :: b :: c :: d :: k) [46, 110, 97, 110] = .ok true := by
+  have h1 : startsCi (a :: b :: c :: d :: k) [46, 110, 97, 110] = true := by
     unfold startsCi
     have hlen : ¬ (a :: b :: c :: d :: k).length < [46, 110, 97, 110].length := by simp
-    rw [if_neg hlen, boundaryAhead_of_noCont hn 0 (by simp), boundaryAhead_of_noCont hn _ (by simp)]
-    simp only [Bool.and_self, Bool.not_true, Bool.false_eq_true, ↓reduceIte]
-    congr 1
+    rw [if_neg hlen]
     simpa using hl
   rw [h0]
-  simp only [HRes.lift, Res.bind, Bool.false_eq_true, ↓reduceIte]
+  simp only [Bool.false_eq_true, ↓reduceIte]
   rw [h1]
   simp only [HRes.lift, Res.bind, ↓reduceIte, advN_four]
 
